@@ -435,6 +435,20 @@ static void generate(Rng &rng, const Opts &o, std::vector<std::string> &lines) {
     lines.push_back("solve_bicgstabl right 2 1/2 0 6 0 0 0 3 3 2 0 2 1 1 3 0 1 1 3 2 1 2 1 1 2 4 id 3 1 3 2 3 0 0 0");
     lines.push_back("solve_bicgstabl right 3 0 0 3 0 0 0 2 2 0 0 id 2 1 2 2 0 0");                             // zero matrix: zero sigma
     lines.push_back("solve_bicgstabl left 2 0 1 3 0 0 0 0 0 id 0 0");                                          // n = 0
+    // an Arnoldi step with H(j,j) == 0 exactly and H(j+1,j) != 0 (generate_plane_rotation's |dy| > |dx| branch with dx = 0):
+    // cyclic shift matrix, r0 = e_0, identity preconditioner; also a 2x2 saddle-point-like matrix with zero diagonal
+    lines.push_back("solve_gmres right 3 3 1/1000 0 0 3 3 1 2 1 1 0 1 1 1 1 id 3 1 0 0 3 0 0 0");
+    lines.push_back("solve_gmres left 2 3 1/1000 0 0 3 3 1 2 1 1 0 1 1 1 1 id 3 1 0 0 3 0 0 0");
+    lines.push_back("solve_fgmres 3 3 1/1000 0 0 3 3 1 2 1 1 0 1 1 1 1 id 3 1 0 0 3 0 0 0");
+    lines.push_back("solve_lgmres right 2 1 1 3 1/1000 0 0 3 3 1 2 1 1 0 1 1 1 1 id 3 1 0 0 3 0 0 0");
+    lines.push_back("solve_gmres right 2 2 1/1000 0 0 2 2 1 1 2 1 0 3 id 2 4 0 2 0 0");
+    // GMRES that does not converge, maxiter not a multiple of M / smaller than M (the budget must hold inside a cycle)
+    lines.push_back("solve_gmres right 3 2 0 0 0 4 4 2 0 4 1 -1 3 0 -1 1 4 2 -1 3 1 -1 2 4 3 -1 2 2 -1 3 4 id 4 1 2 3 4 4 0 0 0 0");
+    lines.push_back("solve_gmres left 2 3 0 0 0 4 4 2 0 4 1 -1 3 0 -1 1 4 2 -1 3 1 -1 2 4 3 -1 2 2 -1 3 4 diag 4 1/4 1/4 1/4 1/4 4 1 2 3 4 4 1 0 0 1");
+    // BiCGStab(L), right preconditioning, non-zero initial guess (the final update must ADD P X to x)
+    lines.push_back("solve_bicgstabl right 2 0 1 4 0 0 0 3 3 2 0 4 1 -1 3 0 -1 1 4 2 -1 2 1 -1 2 4 diag 3 1/4 1/4 1/4 3 1 2 3 3 1 -1 2");
+    // IDR(2) history on one object: the first call leaves non-zero values in the strict lower triangle of M
+    lines.push_back("hist_idrs 2 7/10 0 0 3 0 0 0 3 2 3 1 0 1 3 0 1 2 3 3 2 0 4 1 -1 3 0 -1 1 4 2 -1 2 1 -1 2 4 id 3 1 2 3 3 0 0 0 3 3 2 0 3 1 1 3 0 -1 1 5 2 1 2 1 -2 2 4 id 3 2 0 1 3 1 1 0");
     // malformed stream
     lines.push_back("solve_idrs 0 7/10 0 0 3 0 0 0 2 2 1 0 1 1 1 1 id 2 1 2 2 0 0");                          // s = 0
     lines.push_back("solve_idrs 1 7/10 0 0 3 0 0 0 2 2 1 0 1 1 1 1 id 2 1 2 2 0 0 3 1 1 1");                  // raw vector of wrong size
